@@ -480,7 +480,7 @@ def body_decode(kind: int, path: str) -> bool:
         elif kind == 2:
             p = gemini.GeminiProtocol("gemini://h" + path + "\r\n", srv, hx.make_rh(True), None, w, cfg)
             # urlparse hashes/realizes its argument: contract stub returning the path component
-            gemini.urllib = hx.ns(parse=hx.ns(urlparse=lambda u: hx.ns(path=path, query=""), unquote=unquote, quote=urllib.parse.quote))
+            gemini.urllib = hx.ns(parse=hx.ns(urlparse=lambda u: hx.ns(path=path, query=""), unquote=unquote, quote=urllib.parse.quote, unquote_plus=urllib.parse.unquote_plus, urlsplit=urllib.parse.urlsplit))
         else:
             p = spartan.SpartanProtocol("h " + path + " 0\r\n", srv, hx.make_rh(False), hx.LineReader([]), w, cfg)
         try:
